@@ -101,3 +101,31 @@ if __name__ == '__main__':
     print(len(u), 'codecs')
     for n in u:
         print(n, family(n), len(repertoire(n)), repr(extra_digits(n)), len(undecodable_bytes(n)))
+
+
+@functools.lru_cache(maxsize=None)
+def spellings(codec):
+    """other names Python knows the same codec by (aliases, upper case, hyphens): an encoding name is passed through to
+    str.encode / bytes.decode, so every spelling selects the same codec"""
+    import encodings.aliases
+    out = [codec]
+    for alias, target in sorted(encodings.aliases.aliases.items()):
+        if target == codec and alias not in out:
+            out.append(alias)
+    out += [codec.upper(), codec.replace('_', '-')]
+    good = []
+    for name in out:
+        try:
+            if codecs.lookup(name).name == codecs.lookup(codec).name and name not in good:
+                good.append(name)
+        except LookupError:
+            pass
+    return tuple(good)
+
+
+def spell(codec, k):
+    """the k-th spelling of the codec name (k = 0 mod 3: the canonical name)"""
+    if k % 3 == 0:
+        return codec
+    names = spellings(codec)[1:]
+    return names[(k * 7) % len(names)] if names else codec
